@@ -62,7 +62,11 @@ def gen_base(rng, name, codes=CODES, max_rank=3, **kw):
     rank = rng.randint(0, max_rank)
     shape = tuple(rng.randint(1, 3) for _ in range(rank))
     n = int(np.prod(shape)) if shape else 1
-    return ("base", name, code, shape, tuple(gen_value(rng, code, **kw) for _ in range(n)))
+    vals = [gen_value(rng, code, **kw) for _ in range(n)]
+    if code == "S" and shape and rng.random() < 0.3:
+        # one element of a String ARRAY longer than the |S128 placeholder dtype the DDS parser declares
+        vals[rng.randrange(n)] = "".join(rng.choice(PRINTABLE) for _ in range(rng.choice([129, 150, 260])))
+    return ("base", name, code, shape, tuple(vals))
 
 
 def gen_seq(rng, name, depth=0, codes=CODES, inner=True, nrows=None):
